@@ -8,12 +8,44 @@ package handshakecrypto
 //@ noinline
 //@ end
 
+// RFC 5280 4.2.1.12 / RFC 5246 7.4.6: a certificate is a *client* credential only if its chain validates for the
+// purpose clientAuth against the configured client CAs (crypto/x509 checks the purpose named in
+// VerifyOptions.KeyUsages and defaults to serverAuth when the list is empty); a server chain is validated for
+// the configured server name and the default purpose serverAuth. crypto/x509 Certificate.Verify itself is trusted;
+// what is decided here is which question it is asked, about which certificate, and that success needs its verdict.
+//@ define VOPTS() argAs("Certificate.Verify", 1, x509.VerifyOptions{})
+//@ define LEAF() argAs("Certificate.Verify", 0, (*x509.Certificate)(nil))
+//@ define PARSED() retAs("loadCerts", 0, []*x509.Certificate(nil))
+
+// Assumption (trusted): loadCerts parses every presented certificate in order; x509.ParseCertificate returns a
+// non-nil certificate whenever it returns no error (crypto/x509).
+//@ func loadCerts
+//@ noinline
+//@ trusted
+//@ ensures parsed-all: result1 == nil ==> len(result0) == len(rawCertificates) && len(result0) > 0 && forall(0, len(result0), func(i int) bool { return result0[i] != nil })
+//@ ensures nothing-presented-is-an-error: len(rawCertificates) == 0 ==> result1 != nil
+//@ end
 //@ func VerifyClientCert
 //@ noinline
+//@ watch Certificate.Verify loadCerts
+//@ ensures leaf-is-the-first-presented: called("Certificate.Verify") ==> sameSlice(argAs("loadCerts", 0, rawCertificates), rawCertificates) && LEAF() == PARSED()[0]
+//@ ensures nothing-presented-rejected: len(rawCertificates) == 0 ==> err != nil
+//@ ensures chain-checked-for-client-auth: called("Certificate.Verify") ==> len(VOPTS().KeyUsages) == 1 && VOPTS().KeyUsages[0] == x509.ExtKeyUsageClientAuth
+//@ ensures chain-checked-against-configured-roots: called("Certificate.Verify") ==> VOPTS().Roots == roots
+//@ ensures success-needs-chain-verdict: err == nil ==> ncalls("Certificate.Verify") == 1 && retErr("Certificate.Verify", 1) == nil
+//@ ensures failure-returns-no-chain: err != nil ==> len(chains) == 0
 //@ end
 
 //@ func VerifyServerCert
 //@ noinline
+//@ watch Certificate.Verify loadCerts
+//@ ensures leaf-is-the-first-presented: called("Certificate.Verify") ==> sameSlice(argAs("loadCerts", 0, rawCertificates), rawCertificates) && LEAF() == PARSED()[0]
+//@ ensures nothing-presented-rejected: len(rawCertificates) == 0 ==> err != nil
+//@ ensures chain-checked-for-server-name: called("Certificate.Verify") ==> VOPTS().DNSName == serverName
+//@ ensures chain-checked-for-server-auth: called("Certificate.Verify") ==> len(VOPTS().KeyUsages) == 0 || (len(VOPTS().KeyUsages) == 1 && VOPTS().KeyUsages[0] == x509.ExtKeyUsageServerAuth)
+//@ ensures chain-checked-against-configured-roots: called("Certificate.Verify") ==> VOPTS().Roots == roots
+//@ ensures success-needs-chain-verdict: err == nil ==> ncalls("Certificate.Verify") == 1 && retErr("Certificate.Verify", 1) == nil
+//@ ensures failure-returns-no-chain: err != nil ==> len(chains) == 0
 //@ end
 
 //@ func VerifyKeySignature
